@@ -54,7 +54,7 @@ fn write_archive<W: Write>(spec: &Spec, sink: W) -> Result<(u64, u64), String> {
     let mut w = ArchiveWriter::from_config(sink, cfg.writer_config()).map_err(|e| format!("{e:?}"))?;
     let total = spec.mib * MIB;
     let (files, runs);
-    if !spec.interleaved && spec.op == "write_stream" {
+    if !spec.interleaved && (spec.op == "write_stream" || spec.op.ends_with("_pieces")) {
         // the io::Write adapter: io::copy from the generator in its own buffer sizes
         let id = w.start_file("big").map_err(|e| format!("{e:?}"))?;
         {
@@ -135,7 +135,9 @@ fn measure(spec: &Spec) -> i32 {
         let base = mem::live_signed();
         mem::reset_peak();
         let mut streamed = 0u64;
-        match spec.op.as_str() {
+        // "<op>_pieces": the same operation on an archive whose single file was written in 8 KiB pieces
+        // (thousands of consecutive content blocks of one file)
+        match spec.op.trim_end_matches("_pieces") {
             "repair" => {
                 let mut fs = ArchiveFailSafeReader::from_config(&archive[..], prog::reader_config(&[0])).map_err(|e| format!("{e:?}"))?;
                 let mut wc = ArchiveWriterConfig::new();
@@ -213,7 +215,30 @@ fn measure(spec: &Spec) -> i32 {
 
 fn run_measure(spec: &Spec) -> Result<(u64, u64, u64, u64), String> {
     let exe = format!("{}/target/p/verif/mc", infra::ctx().verif_dir);
-    let out = std::process::Command::new(&exe).arg("C15").arg("--part").arg(spec.arg()).env("VERIF_THREADS", "1").output().map_err(|e| format!("cannot run {exe}: {e}"))?;
+    // a measuring process that does not end within 15 minutes is killed and reported (never waited for forever)
+    let mut child = std::process::Command::new(&exe)
+        .arg("C15")
+        .arg("--part")
+        .arg(spec.arg())
+        .env("VERIF_THREADS", "1")
+        .stdout(std::process::Stdio::piped())
+        .stderr(std::process::Stdio::piped())
+        .spawn()
+        .map_err(|e| format!("cannot run {exe}: {e}"))?;
+    let t0 = std::time::Instant::now();
+    loop {
+        match child.try_wait() {
+            Ok(Some(_)) => break,
+            Ok(None) if t0.elapsed().as_secs() > 900 => {
+                let _ = child.kill();
+                let _ = child.wait();
+                return Err("the operation did not end within 15 minutes (killed)".to_string());
+            }
+            Ok(None) => std::thread::sleep(std::time::Duration::from_millis(20)),
+            Err(e) => return Err(format!("measuring process: {e}")),
+        }
+    }
+    let out = child.wait_with_output().map_err(|e| format!("measuring process: {e}"))?;
     let txt = String::from_utf8_lossy(&out.stdout).to_string();
     for l in txt.lines() {
         if let Some(r) = l.strip_prefix("PEAK ") {
@@ -237,7 +262,7 @@ pub fn run(started: Instant) -> i32 {
     }
     let thorough = infra::thorough();
     let sizes: Vec<usize> = if thorough { vec![4, 16, 64, 256, 1024] } else { vec![4, 16, 64] };
-    let ops = ["write", "write_stream", "write_short_source", "repair", "repair_cut", "linear_extract", "linear_subset", "read_files"];
+    let ops = ["write", "write_stream", "write_short_source", "repair_pieces", "linear_extract_pieces", "read_files_pieces", "repair", "repair_cut", "linear_extract", "linear_subset", "read_files"];
     let mut specs = Vec::new();
     for op in ops {
         for l in L4::ALL {
@@ -251,11 +276,11 @@ pub fn run(started: Instant) -> i32 {
                     if *s == 1024 && (inter || (op != "write" && l != L4::Both)) {
                         continue;
                     }
-                    if (op == "write_stream" || op == "write_short_source") && inter {
+                    if (op == "write_stream" || op == "write_short_source" || op.ends_with("_pieces")) && inter {
                         continue;
                     }
                     // the variants of an operation: layers none and both in the quick tier
-                    if !thorough && matches!(op, "write_stream" | "write_short_source" | "repair_cut" | "linear_subset") && matches!(l, L4::Compress | L4::Encrypt) {
+                    if !thorough && (matches!(op, "write_stream" | "write_short_source" | "repair_cut" | "linear_subset") || op.ends_with("_pieces")) && matches!(l, L4::Compress | L4::Encrypt) {
                         continue;
                     }
                     // quick tier: every operation on layers none and both; the single-layer combinations for write only
